@@ -233,6 +233,15 @@ def check_C17(chk, tier, seed):
     # panicked inside read() / write(): nothing of that may be felt here
     cases.append("POISON")
     cases += base[5::13]
+    # ... and every seventeenth right after a value of the same size whose octets ended early (1, 2 or 3 of 4; 1 ... 7 of 8), which
+    # is refused: nothing of the refused value may turn up in the next one
+    for j, c in enumerate(base[7::17]):
+        ty, n, hexv = c.split()[1], int(c.split()[2]), c.split()[3]
+        cut = 1 + j % (n - 1)
+        cases.append(f"LEAFDEC {ty} {n} x{'deadbeefcafef00d'[: 2 * cut]}")
+        cases.append(c)
+    # ... and on a thread whose own thread-local object uses the library while the thread's locals are being destroyed
+    cases.append("TLDROP")
     # encode side on in-range values
     r = rng.fork("enc")
     for k in ("u32", "i32", "en", "f32", "time", "ip4", "u64", "i64", "f64"):
@@ -242,14 +251,16 @@ def check_C17(chk, tier, seed):
     for i, (c, im, mo) in enumerate(zip(cases, impl, model)):
         mobs, o = split_obs(mo)
         chk.case(c, True)
-        if c == "POISON":
+        if c in ("POISON", "TLDROP"):
             if im != "OK":
                 chk.violation("a decode / encode through a panicking reader / writer on another thread could not be contained: " + short(im, 200), dict(case=c, impl=short(im)))
             continue
         chk.count(("dribble:" if c.startswith("LEAFDECD") else "interrupted:" if c.startswith("LEAFDECI") else "") + c.split()[1] if c.startswith("LEAFDEC") else "enc:" + c.split()[1])
         chk.validated += 1
         ok = im == mobs
-        if c.startswith("LEAFDEC") and ok:
+        if c.startswith("LEAFDEC") and ok and len(c.split()[3]) - 1 < 2 * int(c.split()[2]):
+            ok = im == "ERR"        # a value whose octets end early is refused
+        elif c.startswith("LEAFDEC") and ok:
             # decode-then-encode must give back the same octets
             t = im.split()
             ok = t[0] == "OK" and t[4] == c.split()[3] and t[5] == "0"
